@@ -26,6 +26,13 @@ var sharedRE *process.RuntimeEnvironment
 
 // notc: skip the typechecker (the CLI's --notypecheck); runOpen: execute accepted programs with assumed names too
 var seqNoTC, seqRunOpen bool
+
+// seqcancel: a program whose text starts with the comment `// CANCEL-AFTER` is run with a delay of 15 ms per
+// transition and CANCELLED FROM OUTSIDE (the CancelFunc NewRuntimeEnvironment hands to its host, as the web server
+// uses it) 120 ms after it started.  The capture of that program is kept open for a grace period after the
+// cancellation, so that a transition that was already past its cancellation point still prints into the capture of
+// its own run; the labels of a cancelled run are not reported (they depend on the timer), only the verdict CANCELLED.
+var seqCancel bool
 var seqProcs int
 
 func seqOne(text string, timeoutMs int, reuse bool) (verdict string, out string) {
@@ -79,10 +86,20 @@ func seqOne(text string, timeoutMs int, reuse bool) (verdict string, out string)
 	channels := re.CreateChannelForEachProcess(procs)
 	re.SubstituteNameInitialization(procs, channels)
 	var cancelF context.CancelFunc = cancel
+	cancelled := false
+	if seqCancel && strings.HasPrefix(text, "// CANCEL-AFTER") {
+		re.Delay = 15 * time.Millisecond
+		cancelled = true
+		go func() { time.Sleep(120 * time.Millisecond); cancel() }()
+	}
 	go re.HeartbeatReceiver(time.Duration(timeoutMs)*time.Millisecond, cancelF)
 	re.StartTransitions(procs)
 	select {
 	case <-re.Ctx().Done():
+		if cancelled {
+			time.Sleep(600 * time.Millisecond)
+			return "CANCELLED", ""
+		}
 		return "RAN", ""
 	case e := <-re.ErrorChan():
 		return "RUNTIME-ERROR " + e.Error(), ""
@@ -100,6 +117,9 @@ func seqRun(args []string, reuse bool) {
 	for _, c := range readCases(args[0]) {
 		v, out := seqOne(c.text, timeoutMs, reuse)
 		var labels []string
+		if v == "CANCELLED" {
+			out = ""
+		}
 		for _, l := range strings.Split(out, "\n") {
 			if strings.HasPrefix(l, "> ") {
 				labels = append(labels, l[2:])
@@ -112,10 +132,12 @@ func seqRun(args []string, reuse bool) {
 
 func seqNcCmd(args []string)   { seqNoTC = true; seqRun(args, false) }
 func seqOpenCmd(args []string) { seqRunOpen = true; seqRun(args, false) }
+func seqCancelCmd(args []string) { seqCancel = true; seqRun(args, false) }
 
 func init() {
 	register("seq", seqCmd)
 	register("seqre", seqReCmd)
 	register("seqnc", seqNcCmd)
 	register("seqopen", seqOpenCmd)
+	register("seqcancel", seqCancelCmd)
 }
